@@ -1,6 +1,18 @@
 """Shared logic of the per-property check modules."""
 import os
 
+# integer-keyed translation units: the scope of Engine C's F-SEARCH (cvc/fsearch.py)
+FSEARCH_QUICK = ["II", "LL", "UU", "QQ"]
+FSEARCH_ALL = "IO II IF IU UO UU UF UI LO LL LF LQ QO QQ QF QL".split()
+
+
+def run_fsearch(ctx):
+    fams = FSEARCH_QUICK if ctx.tier == "quick" else FSEARCH_ALL
+    res = ctx.cvc(fams, ["F-SEARCH"])
+    from lib import replay
+    replay.replay_fsearch(ctx, res)
+    return fams
+
 
 def py_targets(prop):
     from pyvc.run import all_contracts
